@@ -252,6 +252,54 @@ func EscrowAddr(kind string, id uint64) string {
 	return sdk.AccAddress(address.Module("fundraising", []byte(prefix+"|"+fmt.Sprint(id)))).String()
 }
 
+// escrowDerivationProblem: a pure-function probe, not simulation (reported as such in DESIGN.md): a
+// run has at most a handful of auctions, but the three escrow addresses of an auction are a function of
+// its id alone and must be distinct for all ids. Once per process the implementation's derivation is
+// compared with the independent one above for the ids 0..4095, ids around powers of two and 2^64-1, and
+// all derived addresses must be pairwise different.
+var (
+	escrowProbeOnce sync.Once
+	escrowProbeMsg  string
+)
+
+func escrowDerivationProblem() string {
+	escrowProbeOnce.Do(func() {
+		ids := make([]uint64, 0, 4400)
+		for i := uint64(0); i < 4096; i++ {
+			ids = append(ids, i)
+		}
+		for sh := uint(12); sh < 64; sh++ {
+			ids = append(ids, uint64(1)<<sh-1, uint64(1)<<sh, uint64(1)<<sh+1)
+		}
+		ids = append(ids, ^uint64(0))
+		seen := map[string]string{}
+		done := map[uint64]bool{}
+		for _, id := range ids {
+			if done[id] {
+				continue
+			}
+			done[id] = true
+			for _, kd := range []struct {
+				kind string
+				f    func(uint64) sdk.AccAddress
+			}{{"selling", types.SellingReserveAddress}, {"paying", types.PayingReserveAddress}, {"vesting", types.VestingReserveAddress}} {
+				got := kd.f(id).String()
+				if want := EscrowAddr(kd.kind, id); got != want {
+					escrowProbeMsg = fmt.Sprintf("the %s escrow address derived for auction id %d is %s, the documented derivation gives %s", kd.kind, id, got, want)
+					return
+				}
+				who := fmt.Sprintf("%s escrow of auction %d", kd.kind, id)
+				if prev, dup := seen[got]; dup {
+					escrowProbeMsg = fmt.Sprintf("the %s and the %s share the address %s", prev, who, got)
+					return
+				}
+				seen[got] = who
+			}
+		}
+	})
+	return escrowProbeMsg
+}
+
 // ---------------------------------------------------------------- node
 
 type Node struct {
